@@ -8,3 +8,8 @@ CLAIMED.update({
    text="Clause decided: the three maps and From<E>. Every return path of map_intern is evaluated to a term over its inputs (closure inlined); one obligation per variant, field and tuple position. By parametricity in L,T,E term equality is a full functional specification. The Display strings are NOT decided.",
    note="trusted: rustc MIR, the term evaluator (rules/symex.py); user closures are uninterpreted symbols"),
 })
+CLAIMED.update({
+ "C27": dict(level="proof", design="§2 C27", technique="static analysis: rustc auto-trait/Freeze queries on the runtime types (custom driver) + syntax-tree lint over all code-emission templates (no static/thread_local/unsafe/interior mutability; Parser struct fields; parse(&self))",
+   text="Whole property at the type level: MatcherBuilder is Send+Sync+Freeze (rustc queries), the per-parse Matcher owns its cache, lalrpop-util has no shared mutable items and no unsafe, and no template can emit shared mutable state; so concurrent parse(&self) calls share only immutable data and cannot interfere.",
+   note="trusted: rustc's Send/Sync/Freeze reasoning and aliasing rules; regex-automata DFA immutability; user action code out of scope"),
+})
